@@ -3,6 +3,7 @@ import PetgraphModel.Spec.CompactGraph
 import PetgraphModel.Proofs.Graph
 import PetgraphModel.Proofs.GraphRefine
 import PetgraphModel.Proofs.GraphRemove
+import PetgraphModel.Proofs.C01W2Main
 /-
 C01 — `Graph` behaves as a compact-indexed multigraph under every operation history.
 
@@ -203,6 +204,143 @@ theorem C01_no_fault_partial (s : State) (h : Inv1 s) (op : Op) (hc : isCore op 
   rw [hf] at this
   exact specAccepts_no_fault this
 
+/-! ### refinement for ALL histories (wave 2): removals, `retain_*`, `filter_map`, conversion, walkers, raw chains
+
+`C01_all_histories_statement` above cannot hold literally: it is phrased with `SpecRun`, whose step
+relation `SpecAccepts` is `False` on the nine call forms stage 1 left out, so the first `remove_edge`
+of a history already refutes it (`C01_all_histories_statement_false_witness`).  The repaired statement
+`C01_all_histories` is the same sentence over `SpecRun2`, the run relation of `SpecAccepts2` — which
+*is* `SpecAccepts` on every core call (`C01_specAccepts2_core`) and on the remaining calls demands
+exactly what `Spec/CompactGraph.lean` (and the judge of `Driver/C01.lean`) prescribe.
+
+The proof carries a ghost insertion stamp per edge index (`st`) and the specification's clock through
+the history: `absG s st ck` is the plain multigraph of a model state, `RInv s st ck` the refinement
+invariant (`Inv`, every stored link points to an edge with a smaller stamp, stamps below the clock).
+`swap_remove` moves the stamp with the edge, so "most recently added first" survives renumbering. -/
+
+/-- abstraction of a model state with ghost stamps `st` (per edge index) and clock `ck` -/
+abbrev absG := GProofs.absG
+/-- the refinement invariant: `Inv`, links point to smaller stamps, stamps below the clock -/
+abbrev RInv := GProofs.RInv
+/-- `SpecAccepts` extended to `remove_node`, `remove_edge`, `retain_nodes`, `retain_edges`,
+`filter_map`, conversion via `StableGraph`, detached walkers, `first_edge`, `next_edge` -/
+abbrev SpecAccepts2 := GProofs.SpecAccepts2
+abbrev SpecRun2 := GProofs.SpecRun2
+
+/-- the original statement is false as written: `SpecAccepts` rejects every `remove_edge` -/
+theorem C01_all_histories_statement_false_witness : ¬ C01_all_histories_statement := by
+  intro h
+  obtain ⟨_, sp, hrun, _⟩ := h 0 true [.removeEdge 0]
+  cases hrun with
+  | cons hacc _ => exact hacc
+
+/-- the extended relation is the stage-1 relation on every core call … -/
+theorem C01_specAccepts2_core (sp sp' : CGS.Spec) (op : Op) (o : Out) (hc : isCore op = true) :
+    SpecAccepts2 sp op o sp' ↔ SpecAccepts sp op o sp' := by
+  constructor
+  · intro h; cases op <;> simp only [GProofs.isCore] at hc <;> first | exact h | cases hc
+  · exact GProofs.specAccepts2_of_core hc
+
+/-- … so a stage-1 run is a run of the extended relation (`C01_all_histories_partial` is subsumed) -/
+theorem C01_specRun2_of_specRun (sp sp' : CGS.Spec) (ops : List Op) (os : List Out)
+    (hall : ∀ op ∈ ops, isCore op = true) (h : SpecRun sp ops os sp') : SpecRun2 sp ops os sp' :=
+  GProofs.specRun2_of_specRun hall h
+
+/-- every constructor establishes the refinement invariant (stamp = index, clock 0) -/
+theorem C01_rinv_init (endv : Nat) (directed : Bool) :
+    RInv (G.empty endv directed) id 0 ∧ absG (G.empty endv directed) id 0 = CGS.empty endv directed :=
+  ⟨GProofs.rinv_empty endv directed, rfl⟩
+
+/-- **stage 2 — order survives removals**: in any state satisfying the refinement invariant the walk
+from a node's head (`k = false` out-list, `k = true` in-list) is fault-free and lists exactly the
+specification's selection — the incident edges, *most recently added first* — whatever `swap_remove`
+renumberings lie in the past -/
+theorem C01_adjacency_order (s : State) (st : Nat → Nat) (ck : Nat) (h : RInv s st ck) (k : Bool) (i : Nat)
+    (nd : Node) (hnd : s.nodes[i]? = some nd) :
+    ∃ c, chain s.edges k s.fuel (nd.next k) = .ok c ∧
+      c.map Prod.fst = (if k then CGS.inEdges (absG s st ck) i else CGS.outEdges (absG s st ck) i) ∧
+      ∀ p ∈ c, s.edges[p.1]? = some p.2 ∧ p.2.node k = i := by
+  obtain ⟨c, h1, h2, h3, _⟩ := h.chain_select k i nd hnd
+  exact ⟨c, h1, h2, h3⟩
+
+/-- **stage 1/2 — `remove_edge`** of a live edge: returns the weight, re-establishes the refinement
+invariant with the moved edge keeping its stamp, and the new state abstracts to the specification's
+`removeEdge` (content *and* stamps) -/
+theorem C01_remove_edge_refines (s : State) (st : Nat → Nat) (ck : Nat) (h : RInv s st ck) (e : Nat) (ed : Edge)
+    (hed : s.edges[e]? = some ed) :
+    ∃ s' st', removeEdge s e = .ok (s', some ed.weight) ∧ RInv s' st' ck ∧
+      absG s' st' ck = CGS.removeEdge (absG s st ck) e := by
+  obtain ⟨s', h1, h2, h3, _⟩ := GProofs.removeEdge_refines h hed
+  exact ⟨s', _, h1, h2, h3⟩
+
+/-- **stage 1/2 — `remove_node`** of a live node: returns the weight and the new state abstracts to
+the specification's `removeNode`.  This sharpens `C01_remove_node` (edges as a multiset): the model
+drops the incident edges in the specification's reference order — out-edges then in-edges, most
+recent first — so the *numbering* of the surviving edges agrees as well. -/
+theorem C01_remove_node_refines (s : State) (st : Nat → Nat) (ck : Nat) (h : RInv s st ck) (a : Nat) (nd : Node)
+    (hnd : s.nodes[a]? = some nd) :
+    ∃ s' st', removeNode s a = .ok (s', some nd.weight) ∧ RInv s' st' ck ∧
+      absG s' st' ck = CGS.removeNode (absG s st ck) a := by
+  obtain ⟨s', st', h1, h2, h3, _⟩ := GProofs.removeNode_refines h hnd
+  exact ⟨s', st', h1, h2, h3⟩
+
+/-- **stage 1/2 — `retain_edges` / `retain_nodes`** (closure = mask + optional weight bump through
+`Frozen`): never fault and abstract to the specification's `retainEdges` / `retainNodes` -/
+theorem C01_retain_refines (s : State) (st : Nat → Nat) (ck : Nat) (h : RInv s st ck) (mask bump : List Bool) :
+    (∃ s' st', retainEdges mask bump s.edges.length s = .ok s' ∧ RInv s' st' ck ∧
+      absG s' st' ck = CGS.retainEdges mask bump s.edges.length (absG s st ck)) ∧
+    (∃ s' st', retainNodes mask bump s.nodes.length s = .ok s' ∧ RInv s' st' ck ∧
+      absG s' st' ck = CGS.retainNodes mask bump s.nodes.length (absG s st ck)) :=
+  ⟨GProofs.retainEdges_refines mask bump ck _ s st h (Nat.le_refl _),
+   GProofs.retainNodes_refines mask bump ck _ s st h (Nat.le_refl _)⟩
+
+/-- **stage 3 — `filter_map` and the conversion through `StableGraph`**: never fault; the result is
+a removal-free state (`Inv1`) that abstracts to the specification's `filterMap` (kept nodes, then kept
+edges, in index order; insertion stamps restart) -/
+theorem C01_filter_map_refines (s : State) (h : Inv s) (st : Nat → Nat) (ck : Nat) (nm em : List Bool) (dn de : Nat) :
+    ∃ s', filterMap s nm em dn de = .ok s' ∧ Inv1 s' ∧ abs s' = CGS.filterMap (absG s st ck) nm em dn de :=
+  GProofs.filterMap_refines h st ck nm em dn de
+
+/-- **refinement step, every call**: in a state satisfying the refinement invariant every public
+call — the core of `C01_refines_partial` *and* `remove_*`, `retain_*`, `filter_map`, conversion,
+detached walkers (with weight mutation while the walker is alive), `first_edge` / `next_edge` —
+answers what the plain multigraph allows, and the successor state satisfies the invariant again and
+abstracts to the multigraph's successor -/
+theorem C01_refines (s : State) (st : Nat → Nat) (ck : Nat) (h : RInv s st ck) (op : Op) :
+    ∃ st' ck', SpecAccepts2 (absG s st ck) op (step s op).2 (absG (step s op).1 st' ck') ∧
+      RInv (step s op).1 st' ck' :=
+  GProofs.stepOK_all h op
+
+/-- **all histories** (the repaired `C01_all_histories_statement`): after any finite sequence of
+public calls from any constructor, for every index width and edge type, the invariant holds and the
+whole sequence of answers is a run of the specification ending in a plain multigraph with the model's
+node weights and `(source, target, weight)` per edge index -/
+theorem C01_all_histories (endv : Nat) (directed : Bool) (ops : List Op) :
+    Inv (run (G.empty endv directed) ops).1 ∧
+    ∃ sp, SpecRun2 (CGS.empty endv directed) ops (run (G.empty endv directed) ops).2 sp ∧
+      sp.nodes = (run (G.empty endv directed) ops).1.nodes.map (·.weight) ∧
+      sp.edges.map (fun e => (e.src, e.tgt, e.weight)) =
+        (run (G.empty endv directed) ops).1.edges.map (fun e => (e.src, e.tgt, e.weight)) := by
+  obtain ⟨st', ck', hrun, hr⟩ := GProofs.refines_run2 ops (G.empty endv directed) id 0 (GProofs.rinv_empty endv directed)
+  exact ⟨hr.inv, _, hrun, rfl, GProofs.absG_content _ _ _⟩
+
+/-- SAFETY / termination for all histories: no unchecked access goes out of bounds, no list walk runs
+out of fuel, no `debug_assert!` fires — in any state satisfying the refinement invariant (hence after
+any history) no call answers with a fault -/
+theorem C01_no_fault (s : State) (st : Nat → Nat) (ck : Nat) (h : RInv s st ck) (op : Op) (f : Fault) :
+    (step s op).2 ≠ .fault f := by
+  intro hf
+  obtain ⟨_, _, hacc, _⟩ := GProofs.stepOK_all h op
+  rw [hf] at hacc
+  exact GProofs.specAccepts2_no_fault hacc
+
+/-- the refinement invariant holds after every history (so `C01_refines`, `C01_no_fault`,
+`C01_adjacency_order` apply to every reachable state) -/
+theorem C01_rinv_all_histories (endv : Nat) (directed : Bool) (ops : List Op) :
+    ∃ st ck, RInv (run (G.empty endv directed) ops).1 st ck := by
+  obtain ⟨st', ck', _, hr⟩ := GProofs.refines_run2 ops (G.empty endv directed) id 0 (GProofs.rinv_empty endv directed)
+  exact ⟨st', ck', hr⟩
+
 /-! ### queries in any state satisfying the invariant (also after removals) -/
 
 /-- `find_edge` / `contains_edge` in *any* state satisfying `Inv`: fault-free; `Some(e)` is an edge
@@ -230,5 +368,23 @@ example : (run (G.empty 255 true) demoOps).2.getLast? = some (.erefs [⟨3, 2, 2
 example : ((run (G.empty 255 true) demoOps).2.drop 10).head? = some (.nats [0, 0]) := rfl
 example : NamesAbsent (run (G.empty 255 true) demoOps).1 (.removeNode 3) :=
   (by decide : (run (G.empty 255 true) demoOps).1.nodes.length ≤ 3)
+
+/-- a history with removals: after `remove_edge(0)` the last edge (index 3, the most recent one) adopts
+index 0, and node 0's out-neighbours are still listed most recently added first — indices `0, 2, 1`,
+not the descending-index order a stamp-free abstraction would predict -/
+def demoOps2 : List Op :=
+  [.addNode 1, .addNode 2, .addNode 3, .addEdge 0 1 5, .addEdge 0 2 6, .addEdge 0 1 7, .addEdge 0 2 8,
+   .removeEdge 0, .neighborsDirected 0 false, .edgesDirected 0 false, .removeNode 1,
+   .retainEdges [true, false] [true], .addEdge 1 0 9, .walk 0 2 true, .firstEdge 0 false, .nextEdge 0 false,
+   .rebuild, .filterMap [true] [] 1 1, .edgeRefs]
+
+example : ((run (G.empty 255 true) demoOps2).2.drop 8).head? = some (.nats [2, 1, 2]) := rfl
+example : ((run (G.empty 255 true) demoOps2).2.drop 9).head? =
+    some (.erefs [⟨0, 0, 2, 8⟩, ⟨2, 0, 1, 7⟩, ⟨1, 0, 2, 6⟩]) := rfl
+example : ((run (G.empty 255 true) demoOps2).2.drop 13).head? = some (.pairs [(0, 1), (1, 1)]) := rfl
+example : (run (G.empty 255 true) demoOps2).2.getLast? = some (.erefs [⟨0, 0, 1, 11⟩, ⟨1, 1, 0, 11⟩]) := rfl
+example : ∃ op ∈ demoOps2, isCore op = false := ⟨.removeEdge 0, by simp [demoOps2], rfl⟩
+example : ∃ sp, SpecRun2 (CGS.empty 255 true) demoOps2 (run (G.empty 255 true) demoOps2).2 sp :=
+  let ⟨_, sp, h, _⟩ := C01_all_histories 255 true demoOps2; ⟨sp, h⟩
 
 end PetgraphModel.C01T
